@@ -103,7 +103,8 @@ func runScramSequence(c *Ctx, mech string, seq []string) {
 			return ch(serverFirst)
 		case "first-foreign":
 			firstValidFor = ""
-			badFirst = fmt.Sprintf("r=FOREIGNNONCEabcdefghijklmnop,s=%s,i=%d", base64.StdEncoding.EncodeToString(salt), iter)
+			// same shape and at least the length of a valid combined nonce, the client's part replaced
+			badFirst = fmt.Sprintf("r=FOREIGN%sSRVNONCE%d,s=%s,i=%d", strings.Repeat("x", len(cnonce)), idx, base64.StdEncoding.EncodeToString(salt), iter)
 			return ch(badFirst)
 		case "first-trunc":
 			firstValidFor = ""
